@@ -65,6 +65,42 @@ Theorem C27_tensor_none : forall b var vs, silent (check_tensor R Rltb NoPolicy 
 Proof. intros; exact (comps_none b var 0 vs). Qed.
 Print Assumptions C27_tensor_none.
 
+(* tensors: when exactly one component, j, is outside the bounds, Strict throws naming j, Warning prints the single
+   warning naming j, None does nothing (every component position is decisive on its own) *)
+Theorem C27_tensor_single_violation : forall b var vs j, only_outside b vs j ->
+  thrown (check_tensor R Rltb Strict b var vs) = Some (Ev (kind_of R b) (var, S j)) /\
+  warns (check_tensor R Rltb Warning b var vs) = [Ev (kind_of R b) (var, S j)] /\
+  thrown (check_tensor R Rltb Warning b var vs) = None /\
+  check_tensor R Rltb NoPolicy b var vs = ok.
+Proof. exact tensor_single_violation. Qed.
+Print Assumptions C27_tensor_single_violation.
+
+(* scalar, quantity (both overload sets) or tensor value: the check throws exactly under Strict when some component
+   is outside the bounds *)
+Theorem C27_value_check_throws_iff : forall q d2 p b var x,
+  throws (check_value R Rltb q d2 p b var x) <-> (p = Strict /\ value_outside b x).
+Proof. exact throws_check_value. Qed.
+Print Assumptions C27_value_check_throws_iff.
+
+(* bounds declared for one component (`@Bounds s(k) in ...`): the check depends on that component only ... *)
+Theorem C27_component_check_concerns_only_that_component : forall p b var k vs vs',
+  nth_error vs k = nth_error vs' k ->
+  check_component R Rltb p b var k (VTensor vs) = check_component R Rltb p b var k (VTensor vs').
+Proof. exact component_only. Qed.
+Print Assumptions C27_component_check_concerns_only_that_component.
+
+(* ... and follows the policies on it: Strict throws (naming component k) iff it is outside, Warning never throws and
+   prints one warning iff it is outside, None is silent *)
+Theorem C27_component_check_policies : forall b var k vs v, nth_error vs k = Some v ->
+  (throws (check_component R Rltb Strict b var k (VTensor vs)) <-> outside b v) /\
+  (outside b v -> thrown (check_component R Rltb Strict b var k (VTensor vs)) = Some (Ev (kind_of R b) (var, S k))) /\
+  ~ throws (check_component R Rltb Warning b var k (VTensor vs)) /\
+  (warns_something (check_component R Rltb Warning b var k (VTensor vs)) <-> outside b v) /\
+  (outside b v -> warns (check_component R Rltb Warning b var k (VTensor vs)) = [Ev (kind_of R b) (var, S k)]) /\
+  silent (check_component R Rltb NoPolicy b var k (VTensor vs)).
+Proof. exact component_check. Qed.
+Print Assumptions C27_component_check_policies.
+
 (* emitted code: the physical-bounds block behaves the same under every policy ... *)
 Theorem C27_physical_bounds_ignore_policy : forall q d2 p1 p2 e ds,
   exec R Rltb q d2 p1 e (block R true ds) = exec R Rltb q d2 p2 e (block R true ds).
@@ -72,7 +108,8 @@ Proof. exact physical_ignore_policy. Qed.
 Print Assumptions C27_physical_bounds_ignore_policy.
 
 (* ... and any emitted sequence of checks (checkBounds(), end of integrate()) throws exactly when some physical
-   bound is violated, or some bound is violated under Strict; for scalar, quantity, tensor values *)
+   bound is violated, or some bound is violated under Strict; for scalar, quantity, tensor values, bounds on the whole
+   variable or on one component (`violated` looks at the selected component(s) only) *)
 Theorem C27_emitted_checks_throw_iff : forall q d2 p e cs,
   throws (exec R Rltb q d2 p e cs) <->
   exists c, In c cs /\ (c_phys R c = true \/ p = Strict) /\ violated e c.
